@@ -25,7 +25,7 @@ ID = 'C20'
 SRC = 'hail/python/hailtop/utils/utils.py'
 COQ_PROPS = 'theories/Gather/Props_C20.v'
 READY = True
-ERRN = ['ErrA', 'ErrB']
+ERRN = ['ErrA', 'ErrB', 'ErrC']      # ErrC derives from BaseException only
 MODES = {'ret': 'MRet', 'raise': 'MRaise', 'cancel': 'MCancel'}
 
 META = dict(
@@ -96,7 +96,7 @@ def _random_case(rng):
         if r < 0.55 and n:
             acts.append(['K', rng.randrange(n)])
         elif r < 0.9 and n:
-            acts.append(['E', rng.randrange(n), rng.randint(0, 1)])
+            acts.append(['E', rng.randrange(n), rng.choice([0, 1, 0, 1, 2])])
         else:
             acts.append(['X'])
     return {'entry': rng.choice(['gather2', 'gather2', 'gather']), 'mode': rng.choice(list(MODES)), 'N': N, 'n': n, 'acts': acts}
